@@ -115,7 +115,8 @@ def _run(case, out, rig, server, cfg, variant, phone):
         if rig.sched.overrun:
             out.fail("hang", "%s:no_progress" % phase, {})
             return False
-        errs = [(n, repr(e)[:200]) for n, e in rig.task_errors()] + [("net", repr(e)[:200]) for e in rig.net_errors]
+        errs = [(n, repr(e)[:200]) for n, e in rig.task_errors() if not isinstance(e, TR.UpperLayerFailed)] + \
+               [("net", repr(e)[:200]) for e in rig.net_errors if not isinstance(e, TR.UpperLayerFailed)]
         if errs:
             out.fail("hang", "%s:task_died" % phase, {"errors": errs})
             return False
@@ -236,6 +237,24 @@ def _run(case, out, rig, server, cfg, variant, phone):
         out.fail("handshake", "login:unexpected_edge_header", {})
         return out
     server_sent = []
+    if case.get("eager") and n_coalesced and server.state == "finish":
+        # first contact / fallback: the server can only send stanzas once it has read the client's last handshake message - it
+        # does so at once, so that they may reach the client at the very moment its handshake completes
+        for i in range(n_coalesced):
+            server_sent.append(stanza(i, "s"))
+        rig.eager_frames = [R.encode(t) for t in server_sent]
+        if case.get("upper_raises") and n_coalesced >= case["upper_raises"]:
+            rig.top.raise_on_nth = case["upper_raises"]
+            rig.top._n_since = 0
+            out.label("layer_above_fails_on_coalesced_stanza")
+        out.label("server_answers_the_last_handshake_message_at_once")
+        nt = True
+    if case.get("upper_raises") and n_coalesced >= case["upper_raises"] and server.state == "transport":
+        # the layer above fails on one of the stanzas that arrive with the handshake reply: that is that stanza's failure, the
+        # login itself - and what it has to store - is not affected
+        rig.top.raise_on_nth = case["upper_raises"]
+        rig.top._n_since = 0
+        out.label("layer_above_fails_on_coalesced_stanza")
     if n_coalesced and server.state == "transport":
         for i in range(n_coalesced):
             t = stanza(i, "s")
@@ -251,6 +270,12 @@ def _run(case, out, rig, server, cfg, variant, phone):
         rig.deliver(ch)
         rig.run()
     probs = rig.shuttle(chunker)
+    probs = list(rig.eager_problems) + list(probs)
+    if rig.eager_frames is not None:
+        # the handshake did not get as far as the client's last message (a corrupted reply): nothing was sent eagerly
+        rig.eager_frames = None
+        if not rig.eager_sent:
+            server_sent = []
     if case.get("corrupt"):
         out.label("corrupt_reply", "corrupt=" + str(case["corrupt"]))
         # a reply that fails authentication must surface as a login failure, never hang
@@ -322,6 +347,9 @@ def _run(case, out, rig, server, cfg, variant, phone):
             return out
     # ---- traffic afterwards, both directions, in order
     n_up = case.get("after_server", 0)
+    if "layer_above_fails_on_coalesced_stanza" in out.labels:
+        # the stanzas queued behind the one that failed are handed upward with the next read
+        n_up = max(1, n_up)
     n_down = case.get("after_client", 0)
     client_sent = []
 
@@ -418,6 +446,8 @@ def case_strategy():
             "after_client": draw(st.integers(0, 4)),
             "prefix": draw(st.lists(st.sampled_from(["before", "during", "during_partial", "after", "after_inside_delivery", "rejected_trailing"]), min_size=0, max_size=2)),
             "corrupt": draw(st.sampled_from([False] * 12 + [True, True] + DAMAGE)),
+            "upper_raises": draw(st.sampled_from([0, 0, 0, 1, 1, 2, 3])),
+            "eager": draw(st.booleans()),
             "earlier": draw(st.one_of(st.none(), st.fixed_dictionaries({"passive": st.booleans(),
                                                                         "pushname": st.one_of(st.none(), st.text(min_size=1, max_size=12))}))),
             "real_profile": draw(st.sampled_from([False, False, True])),
@@ -447,12 +477,30 @@ def _enum_basic():
                    "earlier": {"passive": True, "pushname": None}}
         yield {"sub": "login", "variant": variant, "phone": "12025550100", "passive": False, "pushname": "Zoë", "edge": "0802100118",
                "chunks": [3], "coalesced": 0, "after_server": 1, "after_client": 1, "prefix": [], "corrupt": True, "choices": []}
+        for k in (1, 2):
+            yield {"sub": "login", "variant": variant, "phone": "4915112345", "passive": False, "pushname": None, "edge": None, "chunks": [],
+                   "coalesced": 2, "after_server": 2, "after_client": 2, "prefix": [], "corrupt": False, "choices": [], "upper_raises": k}
         for how in DAMAGE:
             yield {"sub": "login", "variant": variant, "phone": "12025550100", "passive": False, "pushname": None, "edge": None,
                    "chunks": [], "coalesced": 0, "after_server": 1, "after_client": 1, "prefix": [], "corrupt": how, "choices": []}
         for size in (2 ** 24 - 16, 2 ** 24):
             yield {"sub": "login", "variant": variant, "phone": "4915112345", "passive": False, "pushname": None, "edge": None, "chunks": [],
                    "coalesced": 0, "after_server": 1, "after_client": 3, "prefix": [], "corrupt": False, "choices": [], "too_large": size}
+
+
+def _enum_eager_sweep(limit):
+    """first contact and fallback with a server that answers the client's last handshake message at once (two stanzas), one
+    preemption at every yield point: the stanzas may reach the client before, while or after its handshake completes; in half
+    of the cases the layer above fails on the first of them"""
+    def factory():
+        for variant in ("XX", "IK_stale"):
+            for raises in (0, 1):
+                for k in range(limit):
+                    for sel in (0, 1):
+                        yield {"sub": "login", "variant": variant, "phone": "4915112345", "passive": False, "pushname": None, "edge": None,
+                               "chunks": [], "coalesced": 2, "after_server": 1, "after_client": 1, "prefix": [], "corrupt": False,
+                               "choices": [], "preempt": [[k, sel]], "eager": True, "upper_raises": raises}
+    return factory
 
 
 def _enum_preemption_sweep(limit):
@@ -472,7 +520,8 @@ def plan(tier):
     quick = tier == "quick"
     return {
         "shards": 16,
-        "enumerations": [("basic_matrix", _enum_basic), ("single_preemption_sweep", _enum_preemption_sweep(260 if quick else 700))],
+        "enumerations": [("basic_matrix", _enum_basic), ("single_preemption_sweep", _enum_preemption_sweep(260 if quick else 700)),
+                         ("eager_server_sweep", _enum_eager_sweep(260 if quick else 700))],
         "strategies": [("logins", case_strategy(), 60 if quick else 4000)],
         "shrink": "ddmin",
         "budget_s": 150 if quick else 1500,
